@@ -1,7 +1,9 @@
 package main
 
 import (
+	"encoding/hex"
 	"fmt"
+	"go/constant"
 	"go/types"
 	"strings"
 
@@ -116,7 +118,26 @@ func (e *Enc) extCall(ins ssa.Instruction, name string, callee *ssa.Function, si
 			app("<=", app("*", "2", app("slen", rs[0].T)), app("strlen", args[0].T)))))
 		e.assertFresh(rs[0], h)
 		e.assert(e.refOld(rs[1], h))
+		// a constant argument is decoded here: the outcome is known exactly
+		if cst, ok := ins.(ssa.CallInstruction).Common().Args[0].(*ssa.Const); ok && cst.Value != nil && cst.Value.Kind() == constant.String {
+			if bs, derr := hex.DecodeString(constant.StringVal(cst.Value)); derr == nil {
+				e.assert(implies(reach, and(app("=", rs[1].T, "nil"), app("=", app("slen", rs[0].T), ilit(int64(len(bs)))))))
+			} else {
+				e.assert(implies(reach, app("distinct", rs[1].T, "nil")))
+			}
+		}
 		e.setResult(res, rs)
+		return true
+	case "math.Round":
+		trust("rounds to the nearest integer, halves away from zero")
+		if res != nil {
+			a := args[0].T
+			k := e.fresh("rnd", "Int")
+			kr := app("to_real", k)
+			e.assert(implies(app(">=", a, "0.0"), and(app("<=", kr, app("+", a, "0.5")), app(">", kr, app("-", a, "0.5")))))
+			e.assert(implies(app("<", a, "0.0"), and(app(">=", kr, app("-", a, "0.5")), app("<", kr, app("+", a, "0.5")))))
+			e.define(res, kr)
+		}
 		return true
 	case "bytes.NewReader", "bytes.NewBuffer":
 		trust("returns a fresh reader over the given bytes: at most len(b) bytes can ever be read from it")
